@@ -129,7 +129,7 @@ def spec_run(inp, cfg):
 
 def _run_once(chk):
     chk.rule = ("regex family {-, [-,], -|,, (alternation of different lengths), ,,|, , -+, é, ab|a, (-|,)+, a(b|cc), \\|, é|,, ab+, -|,+, \\+, ', +'} × records over the "
-                "regex's own alphabet × bounds with sides in ±4/open and fallbacks × subsets of -g, -t l|r|b, -p -r R, -r R (R ∈ {/, ::, empty, $0x, -, ',-', "
+                "regex's own alphabet (plus, in a quarter of the cases, the replacement text itself) × bounds with sides in ±4/open and fallbacks × subsets of -g, -t l|r|b, -p -r R, -r R (R ∈ {/, ::, empty, $0x, -, ',-', "
                 "\\1}), -s, -m, -j; match positions of the real engine compared with python's re and the Lean matcher on every record; "
                 "non-trivial = selects a byte or fails")
     run_corpus(chk)
@@ -138,10 +138,14 @@ def _run_once(chk):
     cases, cfgs, M = [], [], []
     for _ in range(n):
         rx, alpha = rng.choice(FAMILY)
+        rsel = rng.choice(REPLS) if rng.random() < 0.5 else None
+        atoms = ([alpha[i:i + 1] for i in range(len(alpha))] if not alpha.startswith("é".encode()) and b"\xc3" not in alpha
+                 else [c.encode() for c in alpha.decode()])
+        if rsel and rng.random() < 0.5:
+            atoms = atoms + [rsel, rsel]          # the replacement text itself occurs in the records (next to matches, doubled …)
         recs = []
         for _ in range(rng.randint(1, 3)):
-            rec = b"".join(rng.choice([alpha[i:i + 1] for i in range(len(alpha))] if not alpha.startswith("é".encode()) and b"\xc3" not in alpha
-                                      else [c.encode() for c in alpha.decode()]) for _ in range(rng.randint(0, 8)))
+            rec = b"".join(rng.choice(atoms) for _ in range(rng.randint(0, 8)))
             recs.append(rec)
         inp = b"\n".join(recs) + (b"\n" if rng.random() < 0.6 else b"")
         bs = []
@@ -158,7 +162,7 @@ def _run_once(chk):
             fb = rng.choice(["F", None, None, None])
             bs.append((l, r, fb, single))
         cfg = {"re": rx, "g": rng.random() < 0.3, "t": rng.choice([None, None, "l", "r", "b"]), "p": False, "s": rng.random() < 0.2,
-               "m": rng.random() < 0.15, "j": rng.random() < 0.2, "r": rng.choice(REPLS) if rng.random() < 0.5 else None,
+               "m": rng.random() < 0.15, "j": rng.random() < 0.2, "r": rsel,
                "fb": rng.choice([None, None, b"G"]), "bounds": [(l, r, fb.encode() if fb is not None else None) for (l, r, fb, _) in bs]}
         if cfg["r"] is not None and rng.random() < 0.4:
             cfg["p"] = True
